@@ -15,7 +15,7 @@
 (* last line; TraceAccepted (POSTCONDITION) checks that every line was     *)
 (* consumed.                                                               *)
 (***************************************************************************)
-EXTENDS Endpoint, Wire, TLC, TLCExt, Json, IOUtils
+EXTENDS Endpoint, SocketTab, Wire, TLC, TLCExt, Json, IOUtils
 
 Rec == ndJsonDeserialize(IOEnv.TRACE)
 N == Len(Rec)
@@ -29,10 +29,12 @@ VARIABLES
     sendIdx, \* <<"from|to", wire conn id>> -> endpoint key of the sender
     app,     \* application endpoint name -> endpoint key
     infl,    \* datagram id -> endpoint key of its sender (datagrams in flight)
+    sk,      \* socket address -> dispatcher tables (SocketTab)
+    pairs,   \* connect/accept pairing: keys returned by connect, keys returned by accept
     last,    \* scratch: facts about the immediately preceding lines (last tx, last recv per endpoint)
     viol, cov
 
-vars == <<l, run, now, meta, eps, sendIdx, app, infl, last, viol, cov>>
+vars == <<l, run, now, meta, eps, sendIdx, app, infl, sk, pairs, last, viol, cov>>
 
 RuleNames == {
     "C01.NoGarbage", "C01.SegStable", "C01.SegContiguous", "C01.ReadIsPrefix", "C01.ReadWithinWritten",
@@ -45,7 +47,12 @@ RuleNames == {
     "C06.Backoff", "C06.RtoRange", "C06.FastRetx", "C06.RtoFires", "C06.TimerArmed",
     "C07.NoSpontaneousAck", "C07.DelayedAck", "C07.ImmediateAck",
     "C08.SilentAfterEnd", "C08.SlotFreed", "C08.EndsInTime",
+    "C08.LimitReusable",
     "C10.NoPanic", "C10.NoBugError",
+    "C12.KeyUnique", "C12.LimitRespected", "C12.TableAgrees", "C12.RouteAgrees", "C12.DeliverToNamed", "C12.NoEviction",
+    "C13.AcceptFifo", "C13.BacklogBound", "C13.RefusedOnlyWhenFull", "C13.ExcessRefused", "C13.ResetMatches",
+    "C13.AcceptReturnsMatched", "C13.AcceptCallOrder", "C13.PairOnce", "C13.ReleaseOnAbandon",
+    "C18.NagleHold", "C18.NoHoldWhenOff", "C18.NagleDrain",
     "C11.EmitWellFormed", "C11.EmitConnId",
     "C14.NeverAboveLink", "C14.OrdinaryWithinProven", "C14.OneProbe",
     "C17.FinSeq", "C17.FinAfterData", "C17.NothingAfterFin", "C17.PeerFinInOrder", "C17.FinAnswered",
@@ -53,11 +60,13 @@ RuleNames == {
     "C19.TxBounded", "C19.WriteNotStuck" }
 
 EmptyFn == << >>
-NoMeta == [class |-> "", lat |-> 0]
+NoMeta == [class |-> "", lat |-> 0, backlog |-> 32]
+NoPairs == [connected |-> {}, accepted |-> {}, acceptedN |-> 0]
 
 Init ==
     /\ l = 1 /\ run = 0 /\ now = 0 /\ meta = NoMeta
     /\ eps = EmptyFn /\ sendIdx = EmptyFn /\ app = EmptyFn /\ infl = EmptyFn
+    /\ sk = EmptyFn /\ pairs = NoPairs
     /\ last = [tx |-> [k |-> <<>>], rx |-> EmptyFn]
     /\ viol = {} /\ cov = [r \in RuleNames |-> 0]
 
@@ -77,14 +86,20 @@ Key(r) == <<r.lr, r.cid>>
 Live(k) == k \in DOMAIN eps
 
 IpUdp(cfg) == IF cfg.v6 THEN 48 ELSE 28
+Sock(a) == IF a \in DOMAIN sk THEN sk[a] ELSE NewSock(-1)
+SetSock(a, s) == sk' = Put(sk, a, s)
+SKey(r) == <<r.remote, r.cid>>
+SockRules(a, rs) == { <<<<a, -1>>, x[1], x[2], x[3], "">> : x \in rs }
 IsBug(s) == Len(s) >= 3 /\ SubSeq(s, 1, 3) = "bug"
 
 ---------------------------------------------------------------------------
 Reset(r) ==
     /\ run' = run + 1 /\ now' = 0
     /\ meta' = [class |-> IF Has(r.cfg, "info") /\ Has(r.cfg.info, "class") THEN r.cfg.info.class ELSE "",
-                lat |-> r.cfg.latency_us]
+                lat |-> r.cfg.latency_us,
+                backlog |-> IF Has(r.cfg, "info") /\ Has(r.cfg.info, "backlog") THEN r.cfg.info.backlog ELSE 32]
     /\ eps' = EmptyFn /\ sendIdx' = EmptyFn /\ app' = EmptyFn /\ infl' = EmptyFn
+    /\ sk' = EmptyFn /\ pairs' = NoPairs
     /\ last' = [tx |-> [k |-> <<>>], rx |-> EmptyFn]
     /\ NoJudge
 
@@ -92,6 +107,20 @@ Reset(r) ==
 (* Time advances: every open obligation is checked against the new time.   *)
 (***************************************************************************)
 ConnInFlight(k, pk) == \E i \in DOMAIN infl : infl[i] = k \/ infl[i] = pk
+
+\* the connection of endpoint k is stalled: accepted bytes are undelivered, the reader is waiting, nothing is
+\* in flight and no timer that the properties name is running
+Stalled(k) ==
+    LET e == eps[k]
+        alive == ~e.ended /\ e.dying = ""
+        pk == e.cfg.peer
+        hasPeer == Live(pk)
+        p == IF hasPeer THEN eps[pk] ELSE e
+    IN  /\ meta.class \in {"fair-lossy", "loss-free"}
+        /\ hasPeer /\ e.wr > p.rd /\ p.readPend /\ ~p.ended /\ p.dying = "" /\ alive /\ ~p.rDropped
+        /\ ~(\E i \in DOMAIN infl : infl[i] = k \/ infl[i] = pk)
+        /\ (e.tRtx < 0) /\ (p.tRtx < 0) /\ e.ackDue < 0 /\ p.ackDue < 0
+        /\ e.tAck < 0 /\ p.tAck < 0
 
 TickRules(k, t) ==
     LET e == eps[k]
@@ -110,6 +139,8 @@ TickRules(k, t) ==
           <<k, "C06.RtoFires", (SentUnacked(e) \/ FinUnacked(e)) /\ alive /\ e.tRtx >= 0 /\ ~e.txPending,
                                t <= e.tRtx + Eps, "">>,
           <<k, "C02.IdleWrite", e.idleWr > 0 /\ alive, FALSE, "">>,
+          \* C18 "small writes are coalesced into the next full segment or sent when the pipe drains"
+          <<k, "C18.NagleDrain", e.drainDue > 0 /\ alive, FALSE, "">>,
           <<k, "C02.IdleShutdown", e.idleFin > 0 /\ alive, FALSE, "">>,
           <<k, "C17.FinAnswered", e.finAnsDue > 0 /\ alive /\ ~e.txPending, FALSE, "">>,
           <<k, "C17.ResetAborts", e.resetAt > 0 /\ ~e.ended, FALSE, "">>,
@@ -124,15 +155,21 @@ TickRules(k, t) ==
 
 Tick(r) ==
     /\ now' = r.now
-    /\ UNCHANGED <<run, meta, sendIdx, app, infl, last>>
-    /\ JudgeAll(UNION { TickRules(k, r.now) : k \in DOMAIN eps })
+    /\ UNCHANGED <<run, meta, sendIdx, app, infl, pairs, last>>
+    /\ JudgeAll(UNION { TickRules(k, r.now) : k \in DOMAIN eps }
+                \cup UNION { SockRules(a, { <<"C13.ExcessRefused", sk[a].rstDue # {}, FALSE>> }) : a \in DOMAIN sk })
+    /\ sk' = [a \in DOMAIN sk |-> [sk[a] EXCEPT !.rstDue = {}]]
     \* an obligation is reported once
     /\ eps' = [k \in DOMAIN eps |->
-                 [eps[k] EXCEPT !.ackImm = 0, !.frDue = 0, !.idleWr = 0, !.idleFin = 0, !.finAnsDue = 0,
+                 [eps[k] EXCEPT !.ackImm = 0, !.frDue = 0, !.idleWr = 0, !.idleFin = 0, !.finAnsDue = 0, !.drainDue = 0,
                                 !.slotDue = 0,
                                 !.resetAt = 0,
                                 !.ackDue = IF @ >= 0 /\ r.now > @ + Eps THEN -1 ELSE @,
-                                !.pend = IF eps[k].ended THEN {} ELSE @]]
+                                !.pend = IF eps[k].ended THEN {} ELSE @,
+                                !.stalled = IF @ = "" /\ (Stalled(k) \/ (Live(eps[k].cfg.peer) /\ Stalled(eps[k].cfg.peer)))
+                                            THEN (IF eps[k].pwnd = 0 \/ (Live(eps[k].cfg.peer) /\ eps[eps[k].cfg.peer].pwnd = 0)
+                                                  THEN "after-zero-window-stall" ELSE "after-stall")
+                                            ELSE @]]
 
 ConnNew(r) ==
     LET k == Key(r)
@@ -140,11 +177,11 @@ ConnNew(r) ==
                 max_retx |-> r.max_retx, inactivity |-> r.inactivity, wait_last_ack |-> r.wait_last_ack,
                 probe_retx |-> r.probe_retx, link_mtu |-> r.link_mtu, limit |-> r.limit,
                 incoming |-> r.incoming, cid_send |-> r.cid_send, peer |-> <<r.rl, r.cid_send>>,
-                mss0 |-> r.mss, v6 |-> r.v6]
+                mss0 |-> r.mss, v6 |-> r.v6, local |-> r.local, remote |-> r.remote]
         e == NewEndpoint(cfg, r.seq_nr, r.rnxt, r.pwnd, now)
     IN  /\ eps' = Put(eps, k, e)
         /\ sendIdx' = Put(sendIdx, <<r.lr, r.cid_send>>, k)
-        /\ UNCHANGED <<run, now, meta, app, infl, last>> /\ NoJudge
+        /\ UNCHANGED <<run, now, meta, app, infl, sk, pairs, last>> /\ NoJudge
 
 ---------------------------------------------------------------------------
 (* A datagram handed to the network by a connection endpoint.              *)
@@ -191,7 +228,8 @@ TxEndpoint(r, h, k) ==
         pk == e.cfg.peer
         splitDel == isData /\ IsSplit(e, s, r.plen) /\ Live(pk) /\ D(s, eps[pk].rnxt) <= 0
         e2 == [Emitted(e1, h.ack, wnd, now) EXCEPT !.splitDelivered = @ \/ splitDel,
-                                                   !.idleWr = IF isData THEN 0 ELSE @]
+                                                   !.idleWr = IF isData THEN 0 ELSE @,
+                                                   !.drainDue = IF isData THEN 0 ELSE @]
     IN  /\ JudgeCtx(k, common \cup data \cup fin \cup post, IF e.splitDelivered THEN "split-of-delivered-probe" ELSE "")
         /\ eps' = [eps EXCEPT ![k] = e2]
         /\ infl' = IF r.fate \in {"deliver", "dup"} THEN Put(infl, r.id, k) ELSE infl
@@ -200,34 +238,40 @@ TxEndpoint(r, h, k) ==
 
 Tx(r) ==
     LET h == ParseMessage(r.hdr, r.len)
-        sk == IF h.ok THEN <<r.ft, h.cid>> ELSE <<>>
+        skey == IF h.ok THEN <<r.ft, h.cid>> ELSE <<>>
         raw == Has(r, "raw")
-    IN  /\ UNCHANGED <<run, now, meta, sendIdx, app>>
+        isRst == h.ok /\ h.type = ST_RESET /\ ~raw
+        so == Sock(r.from)
+    IN  /\ UNCHANGED <<run, now, meta, sendIdx, app, pairs>>
         /\ IF ~h.ok
            THEN \* only library sockets are held to C11; the scripted raw peer may emit anything
                 /\ (IF raw THEN NoJudge ELSE Judge(<<r.ft, -1>>, { <<"C11.EmitWellFormed", TRUE, FALSE>> }))
-                /\ UNCHANGED <<eps, last, infl>>
-           ELSE IF sk \in DOMAIN sendIdx /\ ~raw
-           THEN TxEndpoint(r, h, sendIdx[sk])
-           ELSE /\ (IF raw THEN NoJudge ELSE Judge(<<r.ft, h.cid>>, { <<"C11.EmitWellFormed", TRUE, TRUE>> }))
+                /\ UNCHANGED <<eps, last, infl, sk>>
+           ELSE IF skey \in DOMAIN sendIdx /\ ~raw
+           THEN TxEndpoint(r, h, sendIdx[skey]) /\ UNCHANGED sk
+           ELSE /\ (IF raw THEN NoJudge
+                    ELSE Judge(<<r.ft, h.cid>>, { <<"C11.EmitWellFormed", TRUE, TRUE>>,
+                                                 \* C13 "the excess is refused with a reset": a dispatcher RESET answers a refused SYN
+                                                 <<"C13.ResetMatches", isRst, R_C13_ResetMatches(so, r.to, h.cid, h.ack)>> }))
                 /\ infl' = IF r.fate \in {"deliver", "dup"} THEN Put(infl, r.id, <<r.ft, h.cid>>) ELSE infl
+                /\ (IF isRst THEN SetSock(r.from, ResetSent(so, r.to, h.cid, h.ack)) ELSE UNCHANGED sk)
                 /\ UNCHANGED <<eps, last>>
 
 TxFail(r) ==   \* transport back-pressure: the endpoint could not hand the datagram over
-    /\ UNCHANGED <<run, now, meta, sendIdx, app, infl, last, eps>> /\ NoJudge
+    /\ UNCHANGED <<run, now, meta, sendIdx, app, infl, sk, pairs, last, eps>> /\ NoJudge
 
 Dup(r) ==
     /\ infl' = IF r.of \in DOMAIN infl THEN Put(infl, r.id, infl[r.of]) ELSE infl
-    /\ UNCHANGED <<run, now, meta, eps, sendIdx, app, last>> /\ NoJudge
+    /\ UNCHANGED <<run, now, meta, eps, sendIdx, app, sk, pairs, last>> /\ NoJudge
 
 Deliver(r) ==
     /\ infl' = Del(infl, {r.id})
-    /\ UNCHANGED <<run, now, meta, eps, sendIdx, app, last>> /\ NoJudge
+    /\ UNCHANGED <<run, now, meta, eps, sendIdx, app, sk, pairs, last>> /\ NoJudge
 
 (* The hook after a data / FIN transmission: flow-control and retransmission rules. *)
 Xmit(r) ==
     LET k == Key(r) IN
-    /\ UNCHANGED <<run, now, meta, sendIdx, app, infl, last>>
+    /\ UNCHANGED <<run, now, meta, sendIdx, app, infl, sk, pairs, last>>
     /\ IF ~Live(k) THEN NoJudge /\ UNCHANGED eps
        ELSE LET e == eps[k]
                 isFin == r.tag = "fin"
@@ -283,23 +327,32 @@ ActsOn(e, r) ==   \* the packets whose acknowledgement fields the connection hon
 
 Recv(r) ==
     LET k == Key(r) IN
-    /\ UNCHANGED <<run, now, meta, sendIdx, app, infl>> /\ NoJudge
-    /\ IF ~Live(k) THEN UNCHANGED <<eps, last>>
+    /\ UNCHANGED <<run, now, meta, sendIdx, app, infl, pairs>>
+    /\ IF ~Live(k) THEN UNCHANGED <<eps, last, sk>> /\ NoJudge
        ELSE LET e == eps[k]
                 e1 == IF ActsOn(e, r)
                       THEN RecvAck(e, r.ack, r.wnd, r.has_sack, IF r.has_sack THEN SackSet(r.sack) ELSE {},
                                    r.t = ST_STATE, now, l)
                       ELSE e
+                \* (the window must have room for any pre-cut segment: uTP does not re-segment)
+                drain == /\ SentUnacked(e) /\ ~SentUnacked(e1) /\ e1.nextOff < e1.wr /\ e1.pwnd >= e1.cfg.link_mtu
+                         /\ r.state = "established" /\ e1.peerFin < 0 /\ ~e1.txPending
                 e2 == [e1 EXCEPT !.state = r.state, !.stim = TRUE, !.rxCount = @ + 1, !.lastRxAt = now,
+                                 !.drainDue = IF drain THEN l ELSE @,
                                  !.lastWire = now,
                                  !.resetAt = IF r.t = ST_RESET THEN l ELSE @]
             IN  /\ eps' = [eps EXCEPT ![k] = e2]
+                /\ Judge(k, { <<"C06.FastRetx", e1.frDue > 0 /\ e.frDue = 0, TRUE>>,
+                              <<"C17.ResetAborts", r.t = ST_RESET, TRUE>>,
+                              <<"C18.NagleDrain", drain, TRUE>>,
+                              <<"C12.DeliverToNamed", TRUE, R_C12_DeliverToNamed(Sock(r.local), SKey(r))>> })
+                /\ SetSock(r.local, Processed(Sock(r.local), SKey(r)))
                 /\ last' = [last EXCEPT !.rx = Put(@, k, [seq |-> r.seq, plen |-> r.plen, t |-> r.t, line |-> l])]
 
 (* Disposition of a DATA / FIN packet by the receive side. *)
 Disp(r) ==
     LET k == Key(r) IN
-    /\ UNCHANGED <<run, now, meta, sendIdx, app, infl, last>>
+    /\ UNCHANGED <<run, now, meta, sendIdx, app, infl, sk, pairs, last>>
     /\ IF ~Live(k) THEN NoJudge /\ UNCHANGED eps
        ELSE LET e == eps[k]
                 s == r.seq
@@ -317,34 +370,59 @@ Disp(r) ==
                     <<"C04.DuplicateIsOld", w = "duplicate", R_C04_DuplicateIsOld(e, s)>>,
                     <<"C04.AlreadyPresentIsHeld", w = "already_present", R_C04_AlreadyPresentIsHeld(e, s)>>,
                     <<"C04.WithinBuffer", w \in {"consumed", "out_of_order"}, R_C04_WithinBuffer(e1)>>,
-                    <<"C17.PeerFinInOrder", w = "fin_accepted", R_C17_PeerFinInOrder(e, s)>> }
+                    <<"C17.PeerFinInOrder", w = "fin_accepted", R_C17_PeerFinInOrder(e, s)>>,
+                    \* obligations opened here (coverage: an obligation counts as exercised when it is opened;
+                    \* it is judged when the clock advances)
+                    <<"C07.ImmediateAck", e1.ackImm > 0 /\ e.ackImm = 0, TRUE>>,
+                    <<"C07.DelayedAck", e1.ackDue >= 0 /\ e.ackDue < 0, TRUE>>,
+                    <<"C17.FinAnswered", e1.finAnsDue > 0, TRUE>> }
             IN  Judge(k, rules) /\ eps' = [eps EXCEPT ![k] = e1]
 
 ---------------------------------------------------------------------------
 (* Application calls.                                                      *)
 Call(r) ==
-    /\ UNCHANGED <<run, now, meta, sendIdx, app, infl, last>> /\ NoJudge
+    /\ UNCHANGED <<run, now, meta, sendIdx, app, infl, pairs, last>> /\ NoJudge
+    /\ (IF r.op = "accept" THEN SetSock(r.sock, AcceptCalled(Sock(r.sock), r.ep)) ELSE UNCHANGED sk)
     /\ IF r.ep \in DOMAIN app /\ Live(app[r.ep]) /\ r.op = "shutdown"
        THEN eps' = [eps EXCEPT ![app[r.ep]].shutAt = r.arg, ![app[r.ep]].stim = TRUE]
        ELSE UNCHANGED eps
 
 Pend(r) ==
-    /\ UNCHANGED <<run, now, meta, sendIdx, app, infl, last>> /\ NoJudge
+    /\ UNCHANGED <<run, now, meta, sendIdx, app, infl, sk, pairs, last>>
     /\ IF r.ep \in DOMAIN app /\ Live(app[r.ep])
        THEN LET k == app[r.ep] e == eps[k] IN
-            eps' = [eps EXCEPT ![k] = [e EXCEPT
+            /\ Judge(k, { <<"C02.IdleShutdown", r.op = "shutdown" /\ Idle(e) /\ ~e.txPending, TRUE>>,
+                          <<"C19.WriteNotStuck", r.op = "write", TRUE>> })
+            /\ eps' = [eps EXCEPT ![k] = [e EXCEPT
                       !.pend = @ \cup {r.op},
                       !.readPend = IF r.op = "read" THEN TRUE ELSE @,
                       \* C02 "a shutdown on an idle connection emits its FIN at once"
                       !.idleFin = IF r.op = "shutdown" /\ Idle(e) /\ ~e.txPending THEN l ELSE @]]
-       ELSE UNCHANGED eps
+       ELSE UNCHANGED eps /\ NoJudge
 
 Ret(r) ==
     /\ UNCHANGED <<run, now, meta, sendIdx, infl, last>>
     /\ IF r.op \in {"connect", "accept"}
        THEN /\ app' = IF r.res = "ok" THEN Put(app, r.ep, <<r.lr, r.cid>>) ELSE app
-            /\ UNCHANGED eps /\ NoJudge
-       ELSE IF r.ep \notin DOMAIN app \/ ~Live(app[r.ep]) THEN UNCHANGED <<app, eps>> /\ NoJudge
+            /\ UNCHANGED eps
+            /\ IF r.op = "accept" /\ r.res = "ok"
+               THEN LET so == Sock(r.local) key == <<r.remote, r.cid>> IN
+                    /\ Judge(<<r.local, -1>>, {
+                          <<"C13.AcceptReturnsMatched", TRUE, R_C13_AcceptReturnsMatched(so, key)>>,
+                          <<"C13.AcceptCallOrder", TRUE, R_C13_AcceptCallOrder(so, r.ep)>>,
+                          \* "Each successful connect is matched by exactly one accepted stream"
+                          <<"C13.PairOnce", TRUE, <<r.lr, r.cid>> \notin pairs.accepted>> })
+                    /\ SetSock(r.local, AcceptReturned(so, r.ep, key))
+                    /\ pairs' = [pairs EXCEPT !.accepted = @ \cup {<<r.lr, r.cid>>}, !.acceptedN = @ + 1]
+               ELSE IF r.op = "accept" /\ r.res = "abandoned"
+               THEN /\ NoJudge /\ UNCHANGED pairs
+                    /\ (IF Has(r, "sock") THEN SetSock(r.sock, AcceptAbandoned(Sock(r.sock), r.ep)) ELSE UNCHANGED sk)
+               ELSE IF r.op = "connect" /\ r.res = "ok"
+               THEN /\ NoJudge /\ UNCHANGED sk
+                    /\ pairs' = [pairs EXCEPT !.connected = @ \cup {<<r.rl, (r.cid + 1) % 65536>>}]
+               ELSE /\ Judge(<<"", -1>>, { <<"C02.CompletesOk", meta.class \in {"fair-lossy", "loss-free"} /\ r.res = "err", FALSE>> })
+                    /\ UNCHANGED <<sk, pairs>>
+       ELSE IF r.ep \notin DOMAIN app \/ ~Live(app[r.ep]) THEN UNCHANGED <<app, eps, sk, pairs>> /\ NoJudge
        ELSE LET k == app[r.ep]
                 e0 == eps[k]
                 e == [e0 EXCEPT !.pend = @ \ {r.op}, !.readPend = IF r.op = "read" THEN FALSE ELSE @]
@@ -353,7 +431,7 @@ Ret(r) ==
                 fair == meta.class \in {"fair-lossy", "loss-free"}
                 okc == { <<"C02.CompletesOk", fair /\ r.op \in {"read", "write", "flush", "shutdown"}, r.res # "err">> }
                 dctx == IF e.deathCtx # "" THEN e.deathCtx ELSE IF hasPeer /\ eps[pk].deathCtx # "" THEN eps[pk].deathCtx ELSE ""
-            IN  /\ UNCHANGED app
+            IN  /\ UNCHANGED <<app, sk, pairs>>
                 /\ CASE r.op = "read" /\ r.res = "ok" ->
                           /\ JudgeCtx(k, okc \cup {
                                <<"C01.ReadIsPrefix", TRUE, R_C01_ReadIsPrefix(e, r.runs, r.n)>>,
@@ -369,6 +447,7 @@ Ret(r) ==
                           LET e1 == AppWrite(e, r.n, l) IN
                           /\ Judge(k, okc \cup {
                                <<"C19.TxBounded", TRUE, R_C19_TxBounded(e1)>>,
+                               <<"C02.IdleWrite", e1.idleWr > 0 /\ e.idleWr = 0, TRUE>>,
                                <<"C03.NoSuccessAfterAbort", AbortedWithError(e), r.n = 0>> })
                           /\ eps' = [eps EXCEPT ![k] = e1]
                      [] r.op \in {"flush", "shutdown"} /\ r.res = "ok" ->
@@ -376,29 +455,49 @@ Ret(r) ==
                           /\ eps' = [eps EXCEPT ![k] = [e EXCEPT !.flushMark = Max(@, r.pos),
                                                                  !.released = IF r.op = "shutdown" /\ @ < 0 THEN now ELSE @]]
                      [] r.op = "drop_r" ->
-                          /\ Judge(k, {})
+                          /\ Judge(k, { <<"C08.EndsInTime", e.wDropped /\ e.released < 0, TRUE>> })
                           /\ eps' = [eps EXCEPT ![k] = [e EXCEPT !.rDropped = TRUE, !.stim = TRUE,
                                                                  !.released = IF e.wDropped /\ @ < 0 THEN now ELSE @]]
                      [] r.op = "drop_w" ->
-                          /\ Judge(k, {})
+                          /\ Judge(k, { <<"C08.EndsInTime", e.rDropped /\ e.released < 0, TRUE>> })
                           /\ eps' = [eps EXCEPT ![k] = [e EXCEPT !.wDropped = TRUE, !.stim = TRUE,
                                                                  !.released = IF e.rDropped /\ @ < 0 THEN now ELSE @]]
                      [] OTHER -> JudgeCtx(k, okc, dctx) /\ eps' = [eps EXCEPT ![k] = e]
 
 WaitTimeout(r) ==
-    /\ UNCHANGED <<run, now, meta, eps, sendIdx, app, infl, last>>
+    /\ UNCHANGED <<run, now, meta, eps, sendIdx, app, infl, sk, pairs, last>>
     /\ Judge(<<"", -1>>, { <<"C02.CompletesOk", meta.class \in {"fair-lossy", "loss-free"}, FALSE>> })
+
+(* The segmentation decision (the instant the implementation fixes a segment's size; uTP never re-segments). *)
+SegEv(r) ==
+    LET k == Key(r) IN
+    /\ UNCHANGED <<run, now, meta, sendIdx, app, infl, sk, pairs, last>>
+    /\ IF ~Live(k) THEN UNCHANGED eps /\ NoJudge
+       ELSE LET e == eps[k] IN
+            /\ Judge(k, {
+                  \* C18 "never transmits a new data segment smaller than the segment size it could have used while any
+                  \*      earlier data is still unacknowledged, unless the peer's window is what limits it"
+                  \* (room: the strictest reading of what the window still allows, so any looser accounting passes)
+                  <<"C18.NagleHold", r.nagle /\ SentUnacked(e) /\ ~r.probe /\ e.peerFin < 0,
+                                     r.len >= Min(OwnMss(e), Max(0, r.pwnd - r.segmented))>> })
+            /\ eps' = [eps EXCEPT ![k].probeQ = IF r.probe THEN TRUE ELSE @]
 
 Poll(r) ==
     LET k == Key(r) IN
-    /\ UNCHANGED <<run, now, meta, sendIdx, app, infl, last>>
+    /\ UNCHANGED <<run, now, meta, sendIdx, app, infl, sk, pairs, last>>
     /\ IF ~Live(k) THEN UNCHANGED eps /\ NoJudge
        ELSE LET e == eps[k] IN
             /\ Judge(k, {
                   \* the retransmission timer runs while transmitted data or a FIN awaits acknowledgement
                   <<"C06.TimerArmed", (SentUnacked(e) \/ FinUnacked(e)) /\ e.dying = "" /\ r.state # "closed",
                                       r.t_rtx >= 0>>,
-                  <<"C06.RtoRange", TRUE, R_C06_RtoRange(r.rto)>> })
+                  <<"C06.RtoFires", (SentUnacked(e) \/ FinUnacked(e)) /\ r.t_rtx >= 0 /\ r.t_rtx # e.tRtx, TRUE>>,
+                  <<"C06.RtoRange", TRUE, R_C06_RtoRange(r.rto)>>,
+                  \* C18 "With Nagle disabled partial segments are not held back: whenever the connection next processes an
+                  \*      event everything buffered is sent, limited only by window and congestion control"
+                  <<"C18.NoHoldWhenOff", ~e.cfg.nagle /\ r.state = "established" /\ e.peerFin < 0 /\ e.dying = ""
+                                          /\ e.probeOut < 0 /\ ~e.probeQ /\ ~r.pending /\ r.ring_len > 0,
+                                         ~(r.ring_len > r.segmented /\ r.segmented < r.pwnd)>> })
             /\ eps' = [eps EXCEPT ![k] = [e EXCEPT !.state = r.state, !.tRtx = r.t_rtx, !.tAck = r.t_ack,
                                                    !.idleArmed = IF ~SentUnacked(e) /\ ~FinUnacked(e) THEN r.t_rtx
                                                                  ELSE IF @ = r.t_rtx THEN @ ELSE -1,
@@ -406,15 +505,16 @@ Poll(r) ==
 
 Dying(r) ==
     LET k == Key(r) IN
-    /\ UNCHANGED <<run, now, meta, sendIdx, app, infl, last>>
+    /\ UNCHANGED <<run, now, meta, sendIdx, app, infl, sk, pairs, last>>
     /\ IF ~Live(k) THEN UNCHANGED eps /\ NoJudge
        ELSE /\ Judge(k, { <<"C10.NoBugError", TRUE, ~IsBug(r.result)>> })
             /\ eps' = [eps EXCEPT ![k].dying = r.result,
                                   \* known finding: the inactivity abort fires while a retransmission is still
                                   \* scheduled (RTO back-off can exceed the inactivity timeout)
                                   ![k].deathCtx = IF r.result = "remote was inactive for too long"
-                                                     /\ SentUnacked(eps[k]) /\ eps[k].tRtx > now
-                                                  THEN "inactivity-before-rto" ELSE "",
+                                                     /\ (SentUnacked(eps[k]) \/ FinUnacked(eps[k])) /\ eps[k].tRtx >= now
+                                                  THEN "inactivity-before-rto"
+                                                  ELSE IF eps[k].stalled # "" THEN eps[k].stalled ELSE "",
                                   ![k].released = IF @ < 0 THEN now ELSE @]
 
 EndOf(k, result) ==
@@ -423,6 +523,8 @@ EndOf(k, result) ==
           \* C17 "a RESET aborts the connection at once, with an error unless the close handshake was already answered"
           <<"C17.ResetAborts", e.resetAt > 0, result # "ok" \/ e.state = "last-ack">>,
           \* C06: the retransmission limit is a legitimate reason to fail only when it was reached
+          <<"C08.SlotFreed", TRUE, TRUE>>,
+          <<"C03.AbortSurfaces", e.pend # {} /\ result # "ok", TRUE>>,
           <<"C06.CapReason", result = "max number of retransmissions reached",
                              \E s \in DOMAIN e.segs : e.segs[s].cnt >= e.cfg.max_retx + 1>> })
     /\ eps' = [eps EXCEPT ![k] = [e EXCEPT !.ended = TRUE, !.endedAt = now, !.result = result,
@@ -432,25 +534,85 @@ EndOf(k, result) ==
 
 End(r) ==
     LET k == Key(r) IN
-    /\ UNCHANGED <<run, now, meta, sendIdx, app, infl, last>>
+    /\ UNCHANGED <<run, now, meta, sendIdx, app, infl, sk, pairs, last>>
     /\ IF ~Live(k) THEN UNCHANGED eps /\ NoJudge ELSE EndOf(k, r.result)
 
 VsockDrop(r) ==   \* the task object is gone; if it never completed it was cancelled
     LET k == Key(r) IN
-    /\ UNCHANGED <<run, now, meta, sendIdx, app, infl, last>>
+    /\ UNCHANGED <<run, now, meta, sendIdx, app, infl, sk, pairs, last>>
     /\ IF ~Live(k) \/ eps[k].ended THEN UNCHANGED eps /\ NoJudge ELSE EndOf(k, "cancelled")
 
+LiveOn(a) == { k \in DOMAIN eps : eps[k].cfg.local = a /\ ~eps[k].ended }
+
 Tab(r) ==
-    /\ UNCHANGED <<run, now, meta, sendIdx, app, infl, last>> /\ NoJudge
-    /\ IF r.what \in {"stream_remove", "stream_remove_dead"} /\ Has(r, "lr") /\ Live(Key(r))
-       THEN eps' = [eps EXCEPT ![Key(r)].slotDue = 0]
-       ELSE UNCHANGED eps
+    LET a == r.local
+        so0 == Sock(a)
+        so == [so0 EXCEPT !.limit = r.limit]
+        w == r.what
+        key == IF Has(r, "remote") THEN SKey(r) ELSE <<"", -1>>
+        ek == IF Has(r, "lr") THEN Key(r) ELSE <<"", -1>>
+        so1 == CASE w \in {"stream_insert_in", "stream_insert_out"} -> StreamInsert(so, key)
+                 [] w \in {"stream_remove", "stream_remove_dead"} -> StreamRemove(so, key)
+                 [] w = "connecting_insert" -> PendingInsert(so, key)
+                 [] w = "connecting_remove" -> [so EXCEPT !.pending = @ \ {key}]
+                 [] w = "connect_dropped" -> PendingDropSome(so, r.remote)
+                 [] w = "syn_cached" -> SynCached(so, key)
+                 [] w = "syn_refused" -> SynRefused(so)
+                 [] w = "syn_clash_cached" -> SynClashCached(so)
+                 [] OTHER -> so
+        rules == {
+            <<"C12.KeyUnique", w = "stream_insert_in", R_C12_KeyUniqueIn(so, key)>>,
+            <<"C12.KeyUnique", w = "stream_insert_out", R_C12_KeyUniqueOut(so, key)>>,
+            <<"C12.KeyUnique", w = "connecting_insert", R_C12_KeyUniquePending(so, key)>>,
+            <<"C12.KeyUnique", w = "stream_overwrite", FALSE>>,
+            <<"C12.LimitRespected", TRUE, r.streams <= r.limit>>,
+            <<"C12.TableAgrees", Has(r, "streams") /\ w # "stream_overwrite", R_C12_TableAgrees(so1, r.streams)>>,
+            \* C12 "attempts beyond it fail or wait, they do not evict or corrupt existing ones": an entry is removed
+            \* only by its own connection's end (or because nobody took the freshly created stream)
+            <<"C12.NoEviction", w = "stream_remove" /\ Live(ek), ~Live(ek) \/ eps[ek].ended>>,
+            <<"C13.BacklogBound", Has(r, "syns"), R_C13_BacklogBound(r.syns, meta.backlog)>>,
+            <<"C13.RefusedOnlyWhenFull", w = "syn_refused", R_C13_RefusedOnlyWhenFull(so, meta.backlog)>>,
+            <<"C13.ExcessRefused", w = "syn_refused", TRUE>>,
+            <<"C13.ReleaseOnAbandon", w = "connect_dropped", TRUE>>,
+            \* C08 "its entry in the socket's connection table and its share of the connection limit are released":
+            \* a connect is refused for lack of room only while that many connections are really alive
+            <<"C08.LimitReusable", w = "connect_refused_full", Cardinality(LiveOn(a)) >= r.limit>> }
+    IN  /\ UNCHANGED <<run, now, meta, sendIdx, app, infl, pairs, last>>
+        /\ JudgeAll(SockRules(a, rules))
+        /\ SetSock(a, so1)
+        /\ IF w \in {"stream_remove", "stream_remove_dead"} /\ Live(ek)
+           THEN eps' = [eps EXCEPT ![ek].slotDue = 0]
+           ELSE UNCHANGED eps
+
+Route(r) ==
+    LET a == r.local so == Sock(a) key == SKey(r) IN
+    /\ UNCHANGED <<run, now, meta, eps, sendIdx, app, infl, pairs, last>>
+    /\ JudgeAll(SockRules(a, { <<"C12.RouteAgrees", TRUE, R_C12_RouteAgrees(so, key, r.found)>> }))
+    /\ SetSock(a, IF r.found THEN Routed(so, key) ELSE so)
+
+SynArrivedEv(r) ==
+    /\ UNCHANGED <<run, now, meta, eps, sendIdx, app, infl, pairs, last>> /\ NoJudge
+    /\ SetSock(r.local, SynArrived(Sock(r.local), r.remote, r.syn_cid, r.syn_seq))
+
+SynMatchedEv(r) ==
+    LET a == r.local so == Sock(a) key == SKey(r) IN
+    /\ UNCHANGED <<run, now, meta, eps, sendIdx, app, infl, pairs, last>>
+    /\ JudgeAll(SockRules(a, { <<"C13.AcceptFifo", TRUE, R_C13_AcceptFifo(so, key)>> }))
+    /\ SetSock(a, SynMatched(so, key))
+
+EndRun(r) ==
+    /\ UNCHANGED <<run, now, meta, eps, sendIdx, app, infl, sk, pairs, last>>
+    \* C13 "Each successful connect is matched by exactly one accepted stream on the listener" (library listeners only)
+    /\ Judge(<<"", -1>>, {
+          <<"C13.PairOnce", pairs.connected # {} /\ meta.class \in {"fair-lossy", "loss-free"},
+                            \A k \in pairs.connected : (k[1] \in { kk[1] : kk \in DOMAIN eps } => k \in pairs.accepted \/ k \in DOMAIN eps)>>,
+          <<"C02.CompletesOk", meta.class \in {"fair-lossy", "loss-free"}, r.pending = <<>>>> })
 
 Panic(r) ==
-    /\ UNCHANGED <<run, now, meta, eps, sendIdx, app, infl, last>>
+    /\ UNCHANGED <<run, now, meta, eps, sendIdx, app, infl, sk, pairs, last>>
     /\ Judge(<<"", -1>>, { <<"C10.NoPanic", TRUE, FALSE>> })
 
-Skip == UNCHANGED <<run, now, meta, eps, sendIdx, app, infl, last>> /\ NoJudge
+Skip == UNCHANGED <<run, now, meta, eps, sendIdx, app, infl, sk, pairs, last>> /\ NoJudge
 
 ---------------------------------------------------------------------------
 Next ==
@@ -471,9 +633,10 @@ Next ==
          [] r.ev = "ret"       -> Ret(r)
          [] r.ev = "wait_timeout" -> WaitTimeout(r)
          [] r.ev = "poll"      -> Poll(r)
+         [] r.ev = "seg"       -> SegEv(r)
          [] r.ev = "probe_pop" ->
               (LET k == Key(r) IN
-               /\ UNCHANGED <<run, now, meta, sendIdx, app, infl, last>> /\ NoJudge
+               /\ UNCHANGED <<run, now, meta, sendIdx, app, infl, sk, pairs, last>> /\ NoJudge
                /\ IF ~Live(k) THEN UNCHANGED eps
                   ELSE eps' = [eps EXCEPT ![k] = ProbePopped(@, r.seq, r.why = "expired")])
          [] r.ev = "conn_new"  -> ConnNew(r)
@@ -481,6 +644,10 @@ Next ==
          [] r.ev = "end"       -> End(r)
          [] r.ev = "vsock_drop" -> VsockDrop(r)
          [] r.ev = "tab"       -> Tab(r)
+         [] r.ev = "route"     -> Route(r)
+         [] r.ev = "syn_arrived" -> SynArrivedEv(r)
+         [] r.ev = "syn_matched" -> SynMatchedEv(r)
+         [] r.ev = "end_run"   -> EndRun(r)
          [] r.ev = "panic"     -> Panic(r)
          [] OTHER              -> Skip
 
